@@ -41,6 +41,10 @@ static void printf_input(const std::string &f, Rng &r, bool allow_big) {
 	// known finding (see known_findings.json, demonstrated by positional_probe below): positions fetched through conversions of
 	// different sizes. The sweep stays on formats whose positional fetches all have one size.
 	if(P.any_positional && !P.pos_sizes_uniform) { count("printf_skipped_mixed_size_positional"); return; }
+	{ bool mixed = (P.any_positional && P.any_sequential) || P.weird, any_ptr = false, any_star = false;
+	  for(auto c : P.slots) if(c == S_STR || c == S_WSTR) any_ptr = true;
+	  for(auto &d : P.dirs) if(d.star_w || d.star_p) any_star = true;
+	  if(mixed && any_ptr && any_star) { count("printf_skipped_mixed_star_and_pointer"); return; } } // no slot value is both a small width and a valid string pointer
 	std::vector<uint64_t> slots = make_slots(P, r);
 	// '*' slots must be small: find them by re-walking the directives in consumption order (sequential formats only)
 	if(!P.any_positional) { size_t k = 0; for(auto &d : P.dirs) { if(d.star_w && k < slots.size()) slots[k++] = r.below(30); if(d.star_p && k < slots.size()) slots[k++] = r.below(30);
@@ -76,6 +80,7 @@ static void exhaustive_alphabet(const char *mode, const std::string &alpha, unsi
 
 // ------------------------------------------------------------------ fmt
 static void fmt_input(const std::string &f, Rng &r) {
+	{ size_t run = 0; for(char ch : f) { run = (ch >= '0' && ch <= '9') ? run + 1 : 0; if(run > 6 && (hash_str(f) % 200)) { count("fmt_skipped_huge_width"); return; } } } // widths above 10^6 only in a few cases (output volume)
 	GuardedBuf g(f.data(), f.size());
 	frg::string_view v(g.data(), f.size());
 	case_detail("fmt \"%s\"", f.c_str());
